@@ -11,7 +11,7 @@ func init() {
 	register(&PropDef{
 		ID:          "C04",
 		Level:       "other",
-		Explanation: "Cancel as decision/effect table plus ordering rules: (1) the internal cancel function is evaluated on all classes of (found, canceled, completed, started, scheduler present): unknown id → not-found error without effect; already canceled → nil without effect; completed → error without effect; unstarted → the job is marked canceled (and, by the canceled-site rule, leaves the wait list) → nil; running → the scheduler's Cancel is delivered on a WaitGroup-paired goroutine → nil; the HTTP handler maps not-found to 404; (2) the start function refuses canceled jobs before creating the scheduler, storing Start or spawning; (3) Scheduler.Cancel stores the flag before delegating; the scheduling loop tests the flag on every iteration before any launch; TaskRunner.Run tests ctx.Err() before compiling or executing anything; TaskRunner.Cancel cancels and then waits for all runs; (4) on no path of the scheduler that took the `cancelled == 1` edge is a possibly-nil result returned while stages may be unfinished (dischargers: a non-nil error stored to the result, the result != nil edge, the isDone == true edge; the flag is only ever set to 1), and the completion handler sets Canceled iff the result is context.Canceled.",
+		Explanation: "Cancel as decision/effect table plus ordering rules: (1) the internal cancel function is evaluated on all classes of (found, canceled, completed, started, scheduler present): unknown id → not-found error without effect; already canceled → nil without effect; completed → error without effect; unstarted → the job is marked canceled (and, by the canceled-site rule, leaves the wait list) → nil; running → the scheduler's Cancel is delivered on a WaitGroup-paired goroutine → nil; the HTTP handler maps not-found to 404; (2) the start function refuses canceled jobs before creating the scheduler, storing Start or spawning; (3) Scheduler.Cancel stores the flag before delegating; the scheduling loop tests the flag on every iteration before any launch; TaskRunner.Run tests ctx.Err() before compiling or executing anything; TaskRunner.Cancel cancels and then waits for all runs, and every Lock in package taskctl is released on every path to a return of its function (a second Cancel must not block forever); (4) on no path of the scheduler that took the `cancelled == 1` edge is a possibly-nil result returned while stages may be unfinished (dischargers: a non-nil error stored to the result, the result != nil edge, the isDone == true edge; the flag is only ever set to 1), and the completion handler sets Canceled iff the result is context.Canceled.",
 		Trusted:     []string{"C13", "context cancellation reaches running commands (C20)", "upstream runner returns context.Canceled for canceled runs"},
 		NotDecided:  []string{"timing of delivery", "that the runner's Cancel actually stops processes (C20)"},
 		Check:       checkC04,
@@ -161,6 +161,7 @@ func checkC04(w *World, r *Report) {
 	checkCanceledVerdict(w, r, ro)
 	r.Floor("cancel.", 3)
 	r.Floor("stop.", 4)
+	r.Floor("stop.locks-released", 2)
 	r.Floor("verdict.", 3)
 }
 
@@ -428,6 +429,7 @@ func checkStopOrder(w *World, r *Report) {
 		}
 		r.Check(okC, "stop.cancel-then-wait", FuncName(c)+": cancel the context, then wait for all runs", w.Pos(c.Pos()), "every path waits for the runs; the first caller cancels the context before waiting", "TaskRunner.Cancel does not cancel the context and then wait for all task runs on every path")
 	}
+	checkLocksReleased(w, r, "stop.locks-released", "taskctl")
 }
 
 // blockReachesReturnWithoutGo: from b no go statement is reachable.
@@ -712,4 +714,64 @@ func checkCanceledVerdict(w *World, r *Report, ro *Roles) {
 		r.Check(okIff && n > 0, "verdict.canceled-iff-context-canceled", FuncName(ro.Completed)+": Canceled ⇔ errors.Is(err, context.Canceled)", w.Pos(ro.Completed.Pos()), "the job is reported canceled exactly when the scheduler's result is context.Canceled or a cancel request was recorded on it", "the completion handler does not set Canceled exactly when the scheduler's result is context.Canceled: a canceled job is reported as a plain success (or a successful one as canceled)")
 		r.Check(okErr && n > 0, "verdict.last-error", FuncName(ro.Completed)+": LastError := scheduler result", w.Pos(ro.Completed.Pos()), "the scheduler's result is stored as the job's last error on every completing path", "the scheduler's result is not stored as the job's last error")
 	}
+}
+
+// locksReleased: every Lock/RLock of a sync mutex in the functions of a package is followed, on every path
+// to a return of that function, by the matching Unlock of the same mutex (directly or as a deferred call
+// registered after the Lock). A lock that is never released makes the next caller wait forever: for the
+// task runner's cancel mutex that is the second Cancel of a job (a repeated cancel request, or the
+// shutdown after a cancel), whose goroutine the runner's shutdown then waits for without end.
+func checkLocksReleased(w *World, r *Report, rule, pkgRel string) {
+	n := 0
+	for _, fn := range w.ModFuncs {
+		if fn.Package() != w.Pkg(pkgRel) || fn.Synthetic != "" {
+			continue
+		}
+		lockKind := func(c *ssa.CallCommon) (kind, key string) {
+			g := c.StaticCallee()
+			if g == nil || g.Signature.Recv() == nil || len(c.Args) == 0 {
+				return "", ""
+			}
+			rt := g.Signature.Recv().Type().String()
+			if rt != "*sync.Mutex" && rt != "*sync.RWMutex" {
+				return "", ""
+			}
+			switch g.Name() {
+			case "Lock", "Unlock", "RLock", "RUnlock":
+				return g.Name(), w.AP(c.Args[0])
+			}
+			return "", ""
+		}
+		allInstrs(fn, func(in ssa.Instruction) {
+			call, ok := in.(*ssa.Call)
+			if !ok {
+				return
+			}
+			kind, key := lockKind(&call.Call)
+			if kind != "Lock" && kind != "RLock" {
+				return
+			}
+			want := "Unlock"
+			if kind == "RLock" {
+				want = "RUnlock"
+			}
+			n++
+			res := PathQuery{Fn: fn, Start: []ssa.Instruction{in},
+				Target: func(x ssa.Instruction) bool { _, isRet := x.(*ssa.Return); return isRet },
+				BlockInstr: func(x ssa.Instruction) bool {
+					c := callCommonOf(x)
+					if c == nil {
+						return false
+					}
+					if _, isGo := x.(*ssa.Go); isGo {
+						return false
+					}
+					k, m := lockKind(c)
+					return k == want && m == key
+				}}.Find()
+			r.Check(!res.Found, rule, FuncName(fn)+": "+kind+" of "+key, w.InstrPos(in), "every path to a return passes "+want+" of the same mutex (or its deferred call)",
+				"a return of "+FuncName(fn)+" is reachable after "+key+"."+kind+"() without "+want+" ("+res.String()+"): the next caller blocks forever — a second Cancel of the same job (repeated request, or shutdown after a cancel) never returns and the runner's shutdown waits for it without end")
+		})
+	}
+	r.Count("lock sites ("+pkgRel+")", n)
 }
